@@ -755,7 +755,6 @@ fn c10(scn: &Scenario, rf: &Ref, ex: &Exec, out: &mut Vec<Finding>) {
             }
         }
     }
-    let pulls_after = late_pulls;
     let mut per_slot: BTreeMap<u16, usize> = BTreeMap::new();
     for e in after {
         if is_entry(scn, e) {
@@ -790,12 +789,21 @@ fn c11(scn: &Scenario, _rf: &Ref, ex: &Exec, out: &mut Vec<Finding>) {
     };
     let log = &ex.rec.log;
     // (a) the chunk size every worker is handed
+    // a chunk larger than a source of known length is the same as a chunk as large as the source (the single pull
+    // reaches the end): the library may resolve Exact(c) to the input length in that case
+    let expect_for = |input_len: Option<usize>| -> usize {
+        match input_len {
+            Some(len) if c > len.max(1) => len.max(1),
+            _ => c,
+        }
+    };
     for (i, fr) in ex.rec.frames.iter().enumerate() {
-        if !fr.info.chunk_is_exact || fr.info.chunk != c {
-            out.push(f("resolved-chunk", format!("frame {}: Exact({}) resolved to {} (exact: {})", i, c, fr.info.chunk, fr.info.chunk_is_exact)));
+        let want = expect_for(fr.info.input_len);
+        if !fr.info.chunk_is_exact || (fr.info.chunk != c && fr.info.chunk != want) {
+            out.push(f("resolved-chunk", format!("frame {}: Exact({}) resolved to {} (exact: {}, input length {:?})", i, c, fr.info.chunk, fr.info.chunk_is_exact, fr.info.input_len)));
         }
         for s in fr.first_slot..fr.first_slot + fr.registered {
-            if ex.rec.slots[s].chunk != c {
+            if ex.rec.slots[s].chunk != c && ex.rec.slots[s].chunk != want {
                 out.push(f("worker-chunk", format!("frame {}: worker {} was handed chunk size {} instead of {}", i, s - fr.first_slot, ex.rec.slots[s].chunk, c)));
                 return;
             }
@@ -814,7 +822,9 @@ fn c11(scn: &Scenario, _rf: &Ref, ex: &Exec, out: &mut Vec<Finding>) {
             if slot == 0 || b.0 == 0 && !b.1 {
                 return;
             }
-            let ok = if b.1 { b.0 <= c } else { b.0 == c };
+            // (a source of known length shorter than c is pulled in one go of exactly its length)
+            let whole = scn.src.known_len() && c > scn.vals.len().max(1) && b.0 == scn.vals.len();
+            let ok = if b.1 { b.0 <= c } else { b.0 == c || whole };
             if !ok {
                 out.push(f("pull-size", format!("worker slot {} pulled {} elements in one go (end of source reached: {}), Exact({})", slot, b.0, b.1, c)));
             }
@@ -875,18 +885,19 @@ fn c11(scn: &Scenario, _rf: &Ref, ex: &Exec, out: &mut Vec<Finding>) {
         let mut expect = 0u64;
         for e in flog {
             if e.kind == Kind::Dep && e.stage == crate::sched::DEP_CLAIM && e.slot != 0 {
-                if e.b != c as u64 {
+                let want = expect_for(fr.info.input_len) as u64;
+                if e.b != c as u64 && e.b != want {
                     out.push(f("claim-size", format!("frame {}: thread {} claimed {} positions in one pull, Exact({})", i, e.slot, e.b, c)));
                     return;
                 }
                 // claims beyond the end of the source are void (after early exit the counter jumps to the end);
                 // later frames pull from a materialised intermediate vector whose length the harness does not know
                 if i == 0 && (e.a as usize) < scn.vals.len() {
-                    if e.a != expect {
+                    if e.a != expect && e.b == c as u64 {
                         out.push(f("claim-sequence", format!("frame {}: a pull starts at position {} where {} was expected (Exact({}))", i, e.a, expect, c)));
                         return;
                     }
-                    expect += c as u64;
+                    expect += e.b;
                 }
             }
         }
